@@ -344,4 +344,97 @@ theorem rp66v1TifR_fail_next (b : Bytes) (h : ((byteAt b 8 * 2 + byteAt b 9) * 4
     rw [byteAt_take b _ 8 (by decide), byteAt_take b _ 9 (by decide), byteAt_take b _ 10 (by decide), byteAt_take b _ 11 (by decide)]
     exact h
 
+
+/-! ### printable text of any length -/
+
+/-- printable ASCII text (`string.printable`) -/
+def Printable (b : Bytes) : Prop := ∀ x ∈ b, (9 ≤ x ∧ x ≤ 13) ∨ (32 ≤ x ∧ x ≤ 126)
+
+/-- no magic-number test claims a printable text that does not start with `<` or `%` (whatever its length) -/
+theorem identify_skip_magic_pr (lisT : Bytes → LisRes) (datP : Bytes → Bool) (b : Bytes) (hp : Printable b)
+    (h60 : b.head? ≠ some 60) (h37 : b.head? ≠ some 37) :
+    identify lisT datP b = firstMatch lisT datP b (tests.filter (fun t => !isMagic t.2.1)) := by
+  rcases b with _ | ⟨c0, _ | ⟨c1, _ | ⟨c2, _ | ⟨c3, r⟩⟩⟩⟩
+  · simp [identify, tests, firstMatch, runTest, isMagic]
+  all_goals
+    have h0 := hp c0 (by simp)
+    have a1 : c0 ≠ 60 := by simpa using h60
+    have a2 : c0 ≠ 37 := by simpa using h37
+    have a3 : c0 ≠ 4 := by omega
+    have a4 : c0 ≠ 208 := by omega
+    have a5 : c0 ≠ 1 := by omega
+    have a6 : c0 ≠ 255 := by omega
+  · simp [identify, tests, firstMatch, runTest, isMagic, a1, a2, a3, a4, a5, a6]
+  · simp [identify, tests, firstMatch, runTest, isMagic, a1, a2, a3, a4, a5, a6]
+  · simp [identify, tests, firstMatch, runTest, isMagic, a1, a2, a3, a4, a5, a6]
+  · have h3 := hp c3 (by simp)
+    have b1 : c3 ≠ 4 := by omega
+    have b2 : c3 ≠ 0 := by omega
+    simp [identify, tests, firstMatch, runTest, isMagic, a1, a2, a3, a4, a5, a6, b1, b2]
+
+theorem printable_byteAt (b : Bytes) (hp : Printable b) (i : Nat) (h : i < b.length) : 9 ≤ byteAt b i ∧ byteAt b i ≤ 126 := by
+  have := hp _ (byteAt_mem b i h)
+  omega
+
+theorem bit_fail_printable (b : Bytes) (hp : Printable b) : bitTest 12 288 276 b = "" := by
+  by_cases hl : b.length < 12
+  · unfold bitTest; rw [if_pos hl]
+  · have hbytes : ∀ x ∈ b, x < 256 := fun x hx => by have := hp x hx; omega
+    have h8 := printable_byteAt b hp 8 (by omega)
+    have h9 := printable_byteAt b hp 9 (by omega)
+    exact bit_fail b (thirdWord_ne b hbytes (by unfold word288; omega))
+
+theorem rp66v1Tif_fail_printable (b : Bytes) (hp : Printable b) : rp66v1TifTest b = "" := by
+  by_cases hl : b.length < 12
+  · unfold rp66v1TifTest
+    have : (List.take rp66v1LenWithTif b).length < rp66v1LenWithTif := by
+      simp only [List.length_take, rp66v1LenWithTif]; omega
+    simp only [this, if_true]
+  · have h8 := printable_byteAt b hp 8 (by omega)
+    have h9 := printable_byteAt b hp 9 (by omega)
+    have h10 := printable_byteAt b hp 10 (by omega)
+    have h11 := printable_byteAt b hp 11 (by omega)
+    exact rp66v1Tif_fail_next b (by omega)
+
+theorem rp66v1TifR_fail_printable (b : Bytes) (hp : Printable b) : rp66v1TifRTest b = "" := by
+  by_cases hl : b.length < 12
+  · unfold rp66v1TifRTest
+    have : (List.take rp66v1LenWithTif b).length < rp66v1LenWithTif := by
+      simp only [List.length_take, rp66v1LenWithTif]; omega
+    simp only [this, if_true]
+  · have h8 := printable_byteAt b hp 8 (by omega)
+    have h9 := printable_byteAt b hp 9 (by omega)
+    have h10 := printable_byteAt b hp 10 (by omega)
+    have h11 := printable_byteAt b hp 11 (by omega)
+    exact rp66v1TifR_fail_next b (by omega)
+
+
+/-! ### weaker forms used for encoded LIS files -/
+
+theorem thirdWord_ne' (b : Bytes) (hb : ∀ i, 8 ≤ i → i < 12 → byteAt b i < 256) (h : ¬ word288 b) : tifThirdWord b ≠ 288 := by
+  have h8 := hb 8 (by omega) (by omega)
+  have h9 := hb 9 (by omega) (by omega)
+  have h10 := hb 10 (by omega) (by omega)
+  have h11 := hb 11 (by omega) (by omega)
+  unfold word288 at h
+  unfold tifThirdWord le32 be32
+  simp only [show 8 + 1 = 9 from rfl, show 8 + 2 = 10 from rfl, show 8 + 3 = 11 from rfl]
+  split <;> omega
+
+theorem high_byteAt_not_ascii (b : Bytes) (i : Nat) (hi : i < 256) (h : 128 ≤ byteAt b i) :
+    (b.take 256).all (fun c => decide (c < 128)) = false ∧ b.all (fun c => decide (c < 128)) = false := by
+  have hlen : i < b.length := by
+    by_cases hc : i < b.length
+    · exact hc
+    · exfalso
+      have : byteAt b i = 0 := by
+        simp [byteAt, List.getD_eq_getElem?_getD, List.getElem?_eq_none (by omega : b.length ≤ i)]
+      omega
+  apply high_byte_not_ascii b 256
+  refine ⟨byteAt b i, ?_, h⟩
+  have e : byteAt b i = (b.take 256)[i]'(by simp [List.length_take]; omega) := by
+    simp [byteAt, List.getD_eq_getElem?_getD, List.getElem?_eq_getElem hlen, List.getElem_take]
+  rw [e]
+  exact List.getElem_mem _
+
 end TD.C20
